@@ -19,12 +19,10 @@ NA = {
  "C09": "liveness (termination under all schedules); partial-correctness contracts cannot state 'eventually'",
  "C10": "the property is about interleavings of two threads on unsynchronised flags; the VC generator has no concurrency logic",
  "C07": "not claimed: the full statement quantifies over schedules x limit configurations and compares recorded call graphs (a hyper-property outside per-function contracts); the re-entry kernel planned in DESIGN §8 was not built",
- "C16": "not claimed: the non-interference contracts over set iteration order planned in DESIGN §8 were not built (a native witness of hash-seed dependence for nested sets is described in DESIGN §7 but no check reports it)",
  "C19": "not claimed: recursion over arbitrary nested Python values (TypeRegistry dispatch, map_nested_value) needs an inductive datatype encoding of Python objects that the VC generator does not have; planned kernel not built",
  "C21": "not claimed: upstream dataflow contracts (get_upstreams, _record_args rows) planned in DESIGN §8 were not built",
  "C23": "not claimed: serializer round-trip contracts and the closure property of record transfer planned in DESIGN §8 were not built",
  "C24": "not claimed: the statement is about histories of tag operations (multiset semantics over SQL rows); DESIGN §8 planned only a bounded stand-in, which was not built",
- "C25": "not claimed: handle lineage is a history property over the Handle state model; the hash/lineage function contracts planned in DESIGN §8 were not built",
  "C35": "not claimed: configparser interpolation is string-library behaviour outside the encoded subset; DESIGN §8 planned only a bounded stand-in, which was not built",
  "C36": "behaviour lives in Alembic DDL/DML executed by the database engine; no Python function whose contract states row preservation",
 }
